@@ -12,7 +12,7 @@ PREP = {"e2e.C01.roundtrip": "w.", "e2e.C07.corrupt": "w."}
 
 # ops whose implementation observation carries extra statistics after the first word (e.g. "same ok",
 # "same conferr"): only the first word is compared with the model's answer
-FIRST_WORD_FNS = {"c08.twin", "c08.known", "c15.versions", "c15.known", "c02.closure", "c02.known"}
+FIRST_WORD_FNS = {"c08.twin", "c08.known", "c15.versions", "c15.known", "c02.closure", "c02.known", "c19.origin"}
 
 TRUSTED_BASE = [
     "Lean 4.33.0 kernel (thorough tier: leanchecker re-check of the compiled property modules)",
@@ -63,6 +63,18 @@ KNOWN_CLASSES = {
 }
 
 PROPS = {
+    "C19": {
+        "lean_modules": ["TableauVerif.Props.C19"],
+        "oracles": ["c19.origin"],
+        "streams": [
+            ("e2e.C19.origin", 240, 12000, 8),
+        ],
+        "assumptions": [
+            "regenerated tie: Generated/CallSites.lean (the call sites of ParseMessage, GetMergerImporters, GetScatterImporters, RewriteSubdir, importer.New, append and the SheetInfo literals in confgen's conversion path and in load.loadOrigin) is extracted from /repo on every run and pinned by pin_callsites",
+            "theorem scope: ParseMessage, the importers and the codecs are parameters (codec round trip = C06); the theorem states that the two paths feed the same inputs to the same functions (partial)",
+            "the stream covers CSV and XLSX origins; YAML/XML origins are covered by C09's stream",
+        ],
+    },
     "C02": {
         "lean_modules": ["TableauVerif.Props.C02"],
         "oracles": ["c02.closure", "c02.known"],
